@@ -1,1 +1,156 @@
+(* C05/Properties.v — property theorems only: statement, `exact`, Print Assumptions. *)
+From Coq Require Import ZArith List String Bool SpecFloat.
+From C05 Require Import Model Generated Proofs.
+Import ListNotations.
+Open Scope string_scope.
+Open Scope list_scope.
 
+(* T5.src — whatever compile_expr returns (either backend's tables, any bindings): the parameters of
+   the generated `def _expr(...)` are _v0 .. _v(n-1), pairwise different, exactly one per symbol of
+   var_syms and in that order (so fn( *args ) binds each value to its own variable), every variable
+   the source mentions is a parameter (no NameError), and the source text exists. *)
+Theorem C05_source_parameters : forall T rho e c, compile T rho e = Some c ->
+  c_params c = map vname (seq 0 (List.length (c_syms c))) /\ NoDup (c_params c) /\ NoDup (c_syms c) /\
+  c_syms c <> [] /\ incl (ir_vars (c_ir c)) (c_params c) /\
+  ast_to_ir T rho e [] = Some (c_ir c, c_syms c) /\
+  exists src, ir_to_source T (c_ir c) = Some src /\
+              c_source c = "def _expr(" +s join ", " (c_params c) +s "): return " +s src.
+Proof. exact compile_params. Qed.
+Print Assumptions C05_source_parameters.
+
+(* T5.equiv — the compiled function, compiled under ANY earlier bindings rho0 and run under the
+   current bindings rho (types are not re-read by the compiler: the compilation is memoised on the
+   syntax tree), returns what the tree-walking interpreter returns, in structure, elements and
+   integer/real kind, for every expression of the compilable grammar (any nesting) on D5.
+   Closed by the regenerated tables (tables_ok np_tables) and the regenerated call-site flag. *)
+Theorem C05_compiled_equals_interpreted : forall rho0 rho e c,
+  compile np_tables rho0 e = Some c -> d5 rho e = true ->
+  forall v, run_compiled np_tables call_guard c rho = Ok v ->
+  exists v', interp rho e = Ok v' /\ veq v v'.
+Proof.
+  exact (eq_ind_r (fun g => forall rho0 rho e c, compile np_tables rho0 e = Some c -> d5 rho e = true ->
+                     forall v, run_compiled np_tables g c rho = Ok v -> exists v', interp rho e = Ok v' /\ veq v v')
+                  (run_compiled_interp np_tables (eq_refl : tables_ok np_tables = true))
+                  (eq_refl : call_guard = true)).
+Qed.
+Print Assumptions C05_compiled_equals_interpreted.
+
+(* One evaluation site ("try compiled, on exception fall back") with any memo, and any rebinding
+   history of any length evaluated through the same memoised node: where the model speaks (not Unm),
+   the results are the interpreter's; an error of the site is an error of the interpreter. *)
+Theorem C05_site_equals_interpreter : forall e rho m,
+  memo_of np_tables e m -> d5 rho e = true ->
+  res_agree (site np_tables call_guard m rho e) (interp rho e).
+Proof.
+  exact (eq_ind_r (fun g => forall e rho m, memo_of np_tables e m -> d5 rho e = true ->
+                     res_agree (site np_tables g m rho e) (interp rho e))
+                  (site_interp np_tables (eq_refl : tables_ok np_tables = true))
+                  (eq_refl : call_guard = true)).
+Qed.
+Print Assumptions C05_site_equals_interpreter.
+
+Theorem C05_any_rebinding_history : forall e h,
+  Forall (fun rho => d5 rho e = true) h ->
+  Forall2 res_agree (run_history np_tables call_guard None e h) (map (fun rho => interp rho e) h).
+Proof.
+  exact (eq_ind_r (fun g => forall e h, Forall (fun rho => d5 rho e = true) h ->
+                     Forall2 res_agree (run_history np_tables g None e h) (map (fun rho => interp rho e) h))
+                  (fun e h => history_interp np_tables (eq_refl : tables_ok np_tables = true) e h None I)
+                  (eq_refl : call_guard = true)).
+Qed.
+Print Assumptions C05_any_rebinding_history.
+
+(* T5.fallback — an exception in the compiled function (any tables, guard on or off) gives the
+   interpreter's result; the call-time admission test turns a rebinding to a non-admitted value
+   (string, NumPy scalar, empty array, :undefined ...) into such an exception. *)
+Theorem C05_fallback : forall T g c rho e,
+  run_compiled T g c rho = Err -> site T g (Some c) rho e = interp rho e.
+Proof. exact site_fallback. Qed.
+Print Assumptions C05_fallback.
+
+Theorem C05_guard_falls_back : forall T c rho vs e,
+  fetch_args rho (c_syms c) = Some vs -> forallb admit_call vs = false ->
+  site T call_guard (Some c) rho e = interp rho e.
+Proof.
+  exact (eq_ind_r (fun g => forall T c rho vs e, fetch_args rho (c_syms c) = Some vs -> forallb admit_call vs = false ->
+                     site T g (Some c) rho e = interp rho e)
+                  (fun T c rho vs e F G => site_fallback T true c rho e (guard_rejects T c rho vs F G))
+                  (eq_refl : call_guard = true)).
+Qed.
+Print Assumptions C05_guard_falls_back.
+
+(* The statement at full strength (numeric bindings, no exclusion of ^ and of NumPy-scalar division
+   by zero) is FALSE for the code as it is: one witness per known-finding class. *)
+Definition C05_full_statement : Prop := full_statement np_tables call_guard.
+
+Definition four_real : num := NR (z2f 4).
+
+(* K4  a::4.0; a^2  -> 16.0 compiled, 16 interpreted *)
+Theorem C05_power_kind_refuted : ~ C05_full_statement.
+Proof.
+  refine (refute np_tables call_guard (EDyad "^" (ESym "a") (ELitI 2))
+            (env1 "a" (VS false four_real)) (env1 "a" (VS false four_real)) _ _ _ _ _ _ _ _);
+    [vm_compute; reflexivity | vm_compute; reflexivity | vm_compute; reflexivity | vm_compute; reflexivity |].
+  intros v' H. injection H as <-. vm_compute. discriminate.
+Qed.
+
+(* K6  a::[1 2 3]; (+/a)%0  -> inf compiled, :undefined interpreted *)
+Theorem C05_divide_numpy_zero_refuted : ~ C05_full_statement.
+Proof.
+  refine (refute np_tables call_guard (EDyad "%" (EAdv "+" "/" (ESym "a")) (ELitI 0))
+            (env1 "a" (V1 [NI 1; NI 2; NI 3])) (env1 "a" (V1 [NI 1; NI 2; NI 3])) _ _ _ _ _ _ _ _);
+    [vm_compute; reflexivity | vm_compute; reflexivity | vm_compute; reflexivity | vm_compute; reflexivity |].
+  intros v' H. injection H as <-. vm_compute. discriminate.
+Qed.
+
+(* The repaired classes, as the pinned tree had them (parameterised by what the translator reads):
+   np.cumsum/np.cumprod as scan table — a matrix is scanned flattened *)
+Theorem C05_scan_matrix_refuted_with_cumsum : ~ full_statement (with_cumsum np_tables) true.
+Proof.
+  refine (refute _ true (EAdv "+" "\" (ESym "a"))
+            (env1 "a" (V2 [[NI 1; NI 2]; [NI 3; NI 4]])) (env1 "a" (V2 [[NI 1; NI 2]; [NI 3; NI 4]])) _ _ _ _ _ _ _ _);
+    [vm_compute; reflexivity | vm_compute; reflexivity | vm_compute; reflexivity | vm_compute; reflexivity |].
+  intros v' H. injection H as <-. vm_compute. discriminate.
+Qed.
+
+(* without the call-time admission test: +/[] is the ufunc identity 0.0, the interpreter returns [] *)
+Theorem C05_reduce_empty_refuted_without_guard : ~ full_statement np_tables false.
+Proof.
+  refine (refute _ false (EAdv "+" "/" (ESym "a"))
+            (env1 "a" (V1 [NI 1])) (env1 "a" (V1 [])) _ _ _ _ _ _ _ _);
+    [vm_compute; reflexivity | vm_compute; reflexivity | vm_compute; reflexivity | vm_compute; reflexivity |].
+  intros v' H. injection H as <-. vm_compute. discriminate.
+Qed.
+
+(* without it, R15: x*y compiled for numbers and memoised, then run with x = "ab": Python repeats the
+   string where the interpreter raises *)
+Theorem C05_memo_type_change_refuted_without_guard :
+  exists e rho0 rho c v,
+    compile np_tables rho0 e = Some c /\ run_compiled np_tables false c rho = Ok v /\ interp rho e = Err /\
+    site np_tables false (Some c) rho e = Ok v /\ site np_tables true (Some c) rho e = Err.
+Proof.
+  exists (EDyad "*" (ESym "x") (ESym "y")), (env2 "x" (VS false (NI 2)) "y" (VS false (NI 3))),
+         (env2 "x" (VStr [97; 98]%Z) "y" (VS false (NI 3))).
+  eexists. exists (VStr [97; 98; 97; 98; 97; 98]%Z).
+  repeat split; vm_compute; reflexivity.
+Qed.
+
+(* Non-vacuity: a nested expression over a matrix, a vector and a real scalar, compiled while the
+   variables held other types, is in D5, compiles, runs, and the theorem's conclusion is non-trivial. *)
+Example C05_equiv_example :
+  let e := EDyad "-" (EAdv "+" "/" (EDyad "*" (ESym "a") (ESym "b")))
+                     (EDyad "%" (EMonad "-" (ESym "c")) (EAdv "|" "/" (ESym "b"))) in
+  let rho0 := fun n => if String.eqb n "a" then Some (VS false (NI 1)) else
+                       if String.eqb n "b" then Some (VS false (NI 2)) else
+                       if String.eqb n "c" then Some (V1 [NI 1]) else None in
+  let rho := fun n => if String.eqb n "a" then Some (V2 [[NI 1; NI 2]; [NI 3; NI 4]]) else
+                      if String.eqb n "b" then Some (V1 [NI 5; NI 7]) else
+                      if String.eqb n "c" then Some (VS false (NR (z2f 3))) else None in
+  d5 rho e = true /\
+  exists c, compile np_tables rho0 e = Some c /\
+            c_source c = "def _expr(_v0, _v1, _v2): return (np.add.reduce((_v0*_v1))-((-_v2)/np.maximum.reduce(_v1)))" /\
+            exists v, run_compiled np_tables call_guard c rho = Ok v /\ interp rho e = Ok v.
+Proof.
+  cbv zeta. split; [vm_compute; reflexivity |]. eexists. split; [vm_compute; reflexivity |].
+  split; [vm_compute; reflexivity |]. eexists. split; vm_compute; reflexivity.
+Qed.
